@@ -161,6 +161,10 @@ func kindOfTarget(d *lib.TreeDump, p string) string {
 // requested: the request asks the filer to delete data that it makes unreferenced.
 func (w *world) rpc(label string, o op, target string, requested bool, fn func() string) bool {
 	r := w.r
+	if !w.fw.MasterReady() {
+		r.Inconclusive("the filer lost the fake master's volume location (harness-side), manifests cannot be resolved")
+		return false
+	}
 	_ = w.takeObserved()
 	errText := fn()
 	hits := w.takeObserved()
@@ -713,7 +717,7 @@ func runBatch(r *lib.Run, mode, kind string, shard, nshards, sampleOneIn int) {
 		}
 		r.Note("exhaustive", fmt.Sprintf("create(/d/f1) followed by every sequence of %d ops over a %d-op alphabet, sampled 1 in %d (ops whose target does not exist are skipped)", L, n, sampleOneIn))
 	case "rand":
-		nseq, nops := r.Pick(60, 1000), r.Pick(50, 60)
+		nseq, nops := r.Pick(60, 500), r.Pick(50, 60)
 		rng := r.SubRng("c20-rand-" + kind)
 		for s := 0; s < nseq; s++ {
 			seed := rng.Int63()
@@ -800,16 +804,16 @@ func main() {
 	var jobs []job
 	exhShards := r.Pick(2, 6)
 	for s := 0; s < exhShards; s++ {
-		jobs = append(jobs, job{fmt.Sprintf("exh-leveldb-%d", s), []string{"exh", "leveldb", fmt.Sprint(s), fmt.Sprint(exhShards), fmt.Sprint(r.Pick(6, 14))}})
+		jobs = append(jobs, job{fmt.Sprintf("exh-leveldb-%d", s), []string{"exh", "leveldb", fmt.Sprint(s), fmt.Sprint(exhShards), fmt.Sprint(r.Pick(6, 20))}})
 	}
 	for _, k := range []string{"leveldb2", "leveldb3"} {
-		jobs = append(jobs, job{"exh-" + k, []string{"exh", k, "0", "1", fmt.Sprint(r.Pick(40, 60))}})
+		jobs = append(jobs, job{"exh-" + k, []string{"exh", k, "0", "1", fmt.Sprint(r.Pick(40, 120))}})
 	}
 	for _, k := range lib.FilerStoreKinds {
 		jobs = append(jobs, job{"rand-" + k, []string{"rand", k, "0", "1", "1"}})
 	}
 	jobs = append(jobs, job{"threshold-leveldb", []string{"threshold", "leveldb", "0", "1", "1"}})
-	sem := make(chan struct{}, 4)
+	sem := make(chan struct{}, r.Pick(4, 6))
 	var wg sync.WaitGroup
 	for _, j := range jobs {
 		wg.Add(1)
